@@ -1,11 +1,13 @@
 import IcyVerif.Drv.Sixel
 import IcyVerif.Drv.SixelQueue
+import IcyVerif.Drv.SixelLoad
 open IcyVerif.Drv
 
 def dispatch (line : String) : String :=
   match line.trimAscii.toString.splitOn " " with
   | "sixel" :: rest => Sixel.handle rest
   | "sixelqueue" :: rest => SixelQueue.handle rest
+  | "sixelload" :: rest => SixelLoad.handle rest
   | _ => "bad-op"
 
 partial def loop (h : IO.FS.Stream) (out : IO.FS.Stream) : IO Unit := do
